@@ -12,7 +12,7 @@ CHECKS = {
    technique="deterministic simulation: nested-transaction reference model for sequential histories, seeded thread schedules with resize pressure for isolation/atomicity, crash-point enumeration around commit",
    note="Trusted base: hooks H1/H2 and the crash points (MANIFEST.hooks); batches prepared concurrently stay below the 10% headroom of the enlarged map (the envelope of the allocation policy); process death, not power loss."),
  "C17": dict(engine="schedsim", cat="exploration", ref="5/C17",
-   text="Seeded schedule exploration: a fixed multiset of operations (peers submitting bodies of competing forks, a headers thread delivering the fork branch header-first while bodies already arrive, readers incl. validate_tx of an always-valid and a never-valid transaction, template builder, segment server, compactor - every fourth case on an 87-92 block chain where compaction really acts) runs on 4-8 real OS threads against one real Chain; a baton scheduler hooked into grin_util's lock types, the LMDB writer token, the labelled durable steps and sleeps lets exactly one thread run and picks the next one from a seeded PRNG at every such point. Checked: no deadlock, no panic, every observed head names a stored block of matching height/difficulty, head difficulty never decreases per reader, reads never fail; at join the head is the unique most-work block, validate(false) passes and the unspent view equals the replayed ledger. Every run is in a forked child; a recorded choice list replays to the identical trace.",
+   text="Seeded schedule exploration: a fixed multiset of operations (peers submitting bodies of competing forks, a headers thread delivering the fork branch header-first while bodies already arrive, readers incl. validate_tx of an always-valid and a never-valid transaction, template builder, segment server, compactor - every fourth case on an 87-92 block chain where compaction really acts) runs on 4-8 real OS threads against one real Chain; a baton scheduler hooked into grin_util's lock types, the LMDB writer token, the labelled durable steps and sleeps lets exactly one thread run and picks the next one from a seeded PRNG at every such point; in half of the runs one to three threads are additionally stalled for hundreds of scheduling points at random places, and a third of the plans are "leapfrog" plans in which two peers alternate along a branch (parent being accepted while the child is classified as an orphan). Checked: no deadlock, no panic, every observed head names a stored block of matching height/difficulty, head difficulty never decreases per reader, reads never fail; at join the head is the unique most-work block, validate(false) passes and the unspent view equals the replayed ledger. Every run is in a forked child; a recorded choice list replays to the identical trace.",
    technique="deterministic simulation: seeded scheduler controlling real threads at lock/commit points with deadlock detection and sequential-outcome oracle",
    note="Trusted base: hooks H1/H2 (lock wrappers model parking_lot's writer preference; LMDB writer mutex shadowed by a token); scheduling granularity is lock operations, durable steps and sleeps."),
  "C16": dict(engine="pibdsim", cat="exploration", ref="5/C16",
@@ -20,7 +20,7 @@ CHECKS = {
    technique="deterministic simulation: seeded segment delivery schedules with loss/duplication/reordering/corruption between real Segmenter and Desegmenter",
    note="Trusted base: harness mirror of the sync loop and of receive_*_segment; the serving chain keeps its archive header at or above its compaction horizon (always true with mainnet parameters); one case in eight has a multi-chunk bitmap (1081+ real outputs)."),
  "C14": dict(engine="poolsim", cat="exploration", ref="5/C14",
-   text="A real chain plus a real TransactionPool (over a harness BlockChain adapter that forwards identically to servers::PoolToChainAdapter, with ChainToPoolAndNetAdapter::block_accepted mirrored) are driven with seeded interleavings of submissions of every kind (valid, dependent, conflicting, duplicate, aggregated, under-fee, immature/just-mature coinbase, future/next lock height, stem/fluff), blocks mined from the mineable set, blocks with arbitrary pool subsets and conflicting spends, reorgs and capacity shrinks (every schedule contains a shrink below the current size followed by an under-fee and a valid submission); after every operation the pool's joint validity on the current head, per-entry fee/weight/validity, stempool+txpool validity and the mineable set are checked, and blocks built from the mineable set must be accepted by the chain.",
+   text="A real chain plus a real TransactionPool (over a harness BlockChain adapter that forwards identically to servers::PoolToChainAdapter, with ChainToPoolAndNetAdapter::block_accepted mirrored) are driven with seeded interleavings of submissions of every kind (valid, dependent on one or two pooled parents, conflicting, duplicate, aggregated incl. an under-fee remainder, under-fee, fee-shifted honest / underpaying, output-less, bad signature, immature / just-mature / mixed-maturity coinbase spends, future/next lock height, fluffing of a stemmed transaction, stem/fluff with simulated relay failures), blocks mined from the mineable set, blocks with arbitrary pool subsets and conflicting spends, headers arriving ahead of their blocks, reorgs and capacity shrinks (every schedule contains a shrink below the current size followed by an under-fee and a valid submission); after every operation the pool's joint validity on the current head, per-entry fee/weight/validity, stempool+txpool validity and the mineable set are checked, and blocks built from the mineable set must be accepted by the chain.",
    technique="deterministic simulation: seeded interleavings of pool submissions, block connections, reorgs and evictions with invariants checked after every step",
    note="Trusted base: harness wallet/miner; a block connection (process_block + adapter reconcile calls) is treated as atomic; reorg-cache ageing uses an explicit cutoff."),
  "C19": dict(engine="wiresim", cat="fault_enumeration", ref="5/C19",
@@ -40,7 +40,7 @@ CHECKS = {
    technique="deterministic simulation: seeded store histories with compaction/reopen/discard faults against an unpruned reference model",
    note="Trusted base: the unpruned reference MMR in /verif/sim/src/refmodel.rs and the workload generator's adherence to the store usage protocol; fault model is clean reopen/discard (crash consistency is C09)."),
  "C01": dict(engine="chainsim", cat="exploration", ref="5/C01",
-   text="Seeded simulation over fork trees with fees, all kernel variants and offsets plus one re-rooted, re-mined byzantine block per value-corruption class; after every head change stored block sums are compared with sums recomputed over the full state, Chain::validate runs and the wallet-known value of the unspent set must equal the height-determined supply; corrupted blocks must be refused on every delivery path.",
+   text="Seeded simulation over fork trees with fees, all kernel variants and offsets plus one re-rooted, re-mined byzantine block per value-corruption class; after every head change stored block sums are compared with sums recomputed over the full state, Chain::validate runs and the wallet-known value of the unspent set must equal the height-determined supply; corrupted blocks must be refused on every delivery path. A transaction-level matrix (ordinary, output-less, height-locked, fee-shifted, aggregate shapes x single-field corruptions, incl. paying only the shifted fee) must be refused by Transaction::validate while the honest shapes pass.",
    technique="deterministic simulation: seeded histories with single-field value corruptions against a conservation oracle"),
  "C04": dict(engine="chainsim", cat="exploration", ref="5/C04",
    text="Seeded simulation of real-PoW header chains mined by simulated miners with skewed/jumping clocks across all header versions and both retargets; every single-field header mutation (re-mined where needed) is delivered through process_block, process_block_header and sync_block_headers and must be refused and not stored; every honest header's difficulty is compared with an independent re-implementation of the retarget and its minimum/damp/clamp envelope; future-time-limit decode checked at the boundary with a one hour margin.",
@@ -55,7 +55,7 @@ CHECKS = {
    text="Seeded simulation: after every delivery (forks, reorgs, restarts) the committed bitmap root must equal an accumulator built from scratch over the reported unspent set and an independent re-implementation; a re-mined block committing to a bitmap with one flipped bit must be refused.",
    technique="deterministic simulation: seeded apply/rewind histories against a from-scratch bitmap commitment model"),
  "C03": dict(engine="chainsim", cat="exploration", ref="5/C03",
-   text="Seeded simulation: real Chain replicas are fed generated fork trees (real PoW worlds and SKIP_POW worlds with free per-block difficulties) in seeded delivery orders with duplicates, child-before-parent, header batches and clean restarts; after every delivery head/header_head are compared with a most-work model driven by the node's own accept events, and at quiescence every replica must equal a reference node fed the winning chain alone and pass full validation.",
+   text="Seeded simulation: real Chain replicas are fed generated fork trees (real PoW worlds and SKIP_POW worlds with free per-block difficulties) in seeded delivery orders with duplicates, child-before-parent, header batches (also overlapping what the node already has) and clean restarts, including worlds whose forks leave a 56-66 block trunk more than 50 blocks below its tip; after every delivery head/header_head are compared with a most-work model driven by the node's own accept events, and at quiescence every replica must equal a reference node fed the winning chain alone and pass full validation.",
    technique="deterministic simulation: seeded schedule search over block/header delivery orders against a most-work reference model"),
  "C02": dict(engine="chainsim", cat="exploration", ref="5/C02",
    text="Seeded simulation over spend-heavy fork trees plus byzantine blocks (double spend, never-created input, fork-foreign input, duplicated unspent commitment): after every delivery get_unspent over every commitment ever created and the paged enumeration must equal the ledger replayed from the node's own best chain; invalid blocks must be refused.",
